@@ -67,6 +67,7 @@ def bounds_text(tier):
 
 def required_goals(tier):
     return ['series_trimmed', 'attribute_changed_between_measurements', 'change_at_measurement_instant', 'cms_received',
+            'add_sensor_again_during_run',
             'part_skipped', 'part_measured_after_failure']
 
 
@@ -107,6 +108,8 @@ def _periodic(shape, args, ctx):
         tgt.lst = [args['v1'], 5]
         ctx.goal('attribute_changed')
     env.schedule_event(args['t0'], -7, change, prio, 'change attribute')
+    # the sensor is registered with the Cms once more while the simulation is running
+    env.schedule_event(args['t0'], -7, lambda: (cms.add_sensor(sensor), ctx.goal('add_sensor_again_during_run')), prio, 'add_sensor again')
     st = {'n': 0}
     measurements = []   # reference: (time, [values]) per measurement, from what the first callback saw
 
